@@ -265,6 +265,86 @@ var c19big = func() c19elem {
 	return e
 }()
 
+// c19reporter lets sarama's mock broker report its own complaints.
+type c19reporter struct{ errs []string }
+
+func (r *c19reporter) Error(a ...interface{})            { r.errs = append(r.errs, fmt.Sprint(a...)) }
+func (r *c19reporter) Errorf(f string, a ...interface{}) { r.errs = append(r.errs, fmt.Sprintf(f, a...)) }
+func (r *c19reporter) Fatal(a ...interface{})            { r.errs = append(r.errs, fmt.Sprint(a...)) }
+func (r *c19reporter) Fatalf(f string, a ...interface{}) { r.errs = append(r.errs, fmt.Sprintf(f, a...)) }
+func (r *c19reporter) Helper()                           {}
+
+// c19realClient: the producer the library itself sets up (InitSaramaProducer: sarama's real asynchronous
+// client and its configuration) against sarama's in-process mock broker. 120 data messages of 25 records
+// must be taken by the client and reach the broker in produce requests without the publisher getting stuck
+// (normal duration: well under a second; 30 s allowance).
+func c19realClient(schema int, logSuccesses bool) *[2]string {
+	var conv convertor.IPFIXToKafkaConvertor
+	if schema == 1 {
+		conv = convtest.NewFlowType1Convertor()
+	} else {
+		conv = convtest.NewFlowType2Convertor()
+	}
+	tr := &c19reporter{}
+	broker := sarama.NewMockBroker(tr, 1)
+	defer broker.Close()
+	const topic = "Flows.Topic_v2-X"
+	broker.SetHandlerByMap(map[string]sarama.MockResponse{
+		"MetadataRequest": sarama.NewMockMetadataResponse(tr).SetBroker(broker.Addr(), broker.BrokerID()).SetLeader(topic, 0, broker.BrokerID()),
+		"ProduceRequest":  sarama.NewMockProduceResponse(tr),
+	})
+	kp, err := producer.NewKafkaProducer(producer.ProducerInput{KafkaBrokers: []string{broker.Addr()}, KafkaVersion: sarama.DefaultVersion, KafkaTopic: topic,
+		ProtoSchemaConvertor: conv, KafkaLogSuccesses: logSuccesses})
+	if err != nil {
+		return fail("setup", "%v", err)
+	}
+	if err := kp.InitSaramaProducer(); err != nil {
+		return fail("setup", "InitSaramaProducer against the mock broker: %v", err)
+	}
+	const nMsgs, perMsg = 120, 25
+	ch := make(chan *entities.Message, nMsgs)
+	for i := 0; i < nMsgs; i++ {
+		set := entities.NewSet(true)
+		m := entities.NewMessage(true)
+		m.SetVersion(10)
+		m.SetExportTime(uint32(1600000000 + i))
+		m.SetSequenceNum(uint32(i * perMsg))
+		m.SetObsDomainID(7)
+		m.SetExportAddress("10.1.1.1")
+		set.PrepareSet(entities.Data, 256)
+		for r := 0; r < perMsg; r++ {
+			rec, _ := c19record(false, 1, schema, i*perMsg+r)
+			set.AddRecordV2(rec.GetOrderedElementList(), 256)
+		}
+		m.AddSet(set)
+		ch <- m
+	}
+	close(ch)
+	fin := make(chan struct{})
+	go func() { kp.PublishIPFIXMessages(ch); kp.Close(); close(fin) }()
+	select {
+	case <-fin:
+	case <-time.After(30 * time.Second):
+		n := 0
+		for _, h := range broker.History() {
+			if _, ok := h.Request.(*sarama.ProduceRequest); ok {
+				n++
+			}
+		}
+		return fail("publish-stuck", "the library's own sarama client (InitSaramaProducer, KafkaLogSuccesses=%v) had not finished publishing %d records and closing after 30 s; the broker has seen %d produce requests", logSuccesses, nMsgs*perMsg, n)
+	}
+	n := 0
+	for _, h := range broker.History() {
+		if _, ok := h.Request.(*sarama.ProduceRequest); ok {
+			n++
+		}
+	}
+	if n == 0 {
+		return fail("nothing-produced", "the library's own sarama client finished, yet the broker saw no produce request for %d records", nMsgs*perMsg)
+	}
+	return nil
+}
+
 func c19check(stream []int, schema int) *[2]string { return c19checkMode(stream, schema, false) }
 
 func c19checkMode(stream []int, schema int, ack bool) *[2]string {
@@ -275,7 +355,7 @@ func c19checkMode(stream []int, schema int, ack bool) *[2]string {
 	} else {
 		conv, mk = convtest.NewFlowType2Convertor(), func() proto.Message { return &protobuf.FlowType2{} }
 	}
-	kp, err := producer.NewKafkaProducer(producer.ProducerInput{KafkaVersion: sarama.DefaultVersion, KafkaTopic: "flows-topic", ProtoSchemaConvertor: conv, KafkaLogSuccesses: ack})
+	kp, err := producer.NewKafkaProducer(producer.ProducerInput{KafkaVersion: sarama.DefaultVersion, KafkaTopic: "Flows.Topic_v2-X", ProtoSchemaConvertor: conv, KafkaLogSuccesses: ack})
 	if err != nil {
 		return fail("setup", "%v", err)
 	}
@@ -323,9 +403,9 @@ func c19checkMode(stream []int, schema int, ack bool) *[2]string {
 	}
 	// one long-lived consumer (and schema message) for the whole stream, as in the shipped consumer
 	schemaMsg := mk()
-	kc := consumer.NewKafkaConsumer(consumer.ConsumerInput{KafkaTopic: "flows-topic", KafkaProtoSchema: schemaMsg, MsgDelimitWithLen: true})
+	kc := consumer.NewKafkaConsumer(consumer.ConsumerInput{KafkaTopic: "Flows.Topic_v2-X", KafkaProtoSchema: schemaMsg, MsgDelimitWithLen: true})
 	for i, pm := range fp.got {
-		if pm.Topic != "flows-topic" {
+		if pm.Topic != "Flows.Topic_v2-X" {
 			return fail("topic", "message %d published on topic %q", i, pm.Topic)
 		}
 		b, err := pm.Value.Encode()
@@ -451,13 +531,24 @@ func runC19(tier, replay string) int {
 			}
 		}
 	}
+	// the client the library configures itself, against sarama's mock broker
+	for schema := 1; schema <= 2 && rep.Violations() == 0; schema++ {
+		for _, ls := range []bool{false, true} {
+			streams++
+			records += 120 * 25
+			if res := c19realClient(schema, ls); res != nil {
+				rep.Report(fmt.Sprintf("FlowType%d,real-client", schema), res[0], res[1], map[string]interface{}{"schema": schema, "logSuccesses": ls}, nil)
+				break
+			}
+		}
+	}
 done:
 	fmt.Printf("C19 %s: streams=%d records published and decoded=%d violations=%d\n", tier, streams, records, rep.Violations())
 	ev := &common.Evidence{PropertyID: "C19", Tier: tier}
 	ev.Coverage = common.Coverage{
 		"states": streams, "transitions": records, "traces_validated_against_impl": streams, "samples": samples,
 		"evaluations": streams, "distinct_nontrivial": streams,
-		"rule":       fmt.Sprintf("every stream of length 1..%d over {template message, data message with 0 records, 1 (IPv4 typical), 1 (IPv6 maximal), 2 (IPv4 maximal then IPv4 zero), 3 (IPv6, IPv4, IPv6 zero), 3 (the middle one with a pod name that is not UTF-8 and cannot be marshalled: it alone may be left out)}; every record also carries an element the schema has no field for (first in the IPv4 layout, last in the IPv6 one) x both shipped proto schemas through PublishIPFIXMessages with a capturing producer that keeps every message by reference until the end (as an unflushed async producer does); oracle: one message per data record in stream+record order, none for templates, configured topic, 4-byte big-endian length + exactly that many bytes, protobuf decodes to the record's values (table written from flow.proto) and the carrying message's export time / sequence / domain / exporter address, and the consumer-side decoder accepts it and recovers the same values; exporter addresses alternate between IPv4 and IPv6; in addition every stream of length <= 2 and three streams with a 600-record message are published with KafkaLogSuccesses through a producer whose input and acknowledgement channels hold 256 messages each. Streams are distinct by construction", maxLen),
+		"rule":       fmt.Sprintf("every stream of length 1..%d over {template message, data message with 0 records, 1 (IPv4 typical), 1 (IPv6 maximal), 2 (IPv4 maximal then IPv4 zero), 3 (IPv6, IPv4, IPv6 zero), 3 (the middle one with a pod name that is not UTF-8 and cannot be marshalled: it alone may be left out)}; every record also carries an element the schema has no field for (first in the IPv4 layout, last in the IPv6 one) x both shipped proto schemas through PublishIPFIXMessages with a capturing producer that keeps every message by reference until the end (as an unflushed async producer does); oracle: one message per data record in stream+record order, none for templates, configured topic, 4-byte big-endian length + exactly that many bytes, protobuf decodes to the record's values (table written from flow.proto) and the carrying message's export time / sequence / domain / exporter address, and the consumer-side decoder accepts it and recovers the same values; exporter addresses alternate between IPv4 and IPv6; in addition every stream of length <= 2 and three streams with a 600-record message are published with KafkaLogSuccesses through a producer whose input and acknowledgement channels hold 256 messages each; finally 3000 records go through the client the library configures itself (InitSaramaProducer) to sarama's in-process mock broker, with and without success logging, and must be produced without the publisher getting stuck. Streams are distinct by construction", maxLen),
 		"exhaustive": true,
 	}
 	ev.WallS = common.Since(rep.Start)
